@@ -358,6 +358,9 @@ func c05cScenario(m *vk.M, idx int) {
 			if !bad && k == 0 && g.YAMLExact(c.Doc) && !g.HasNull(c.Doc) {
 				yo, dyy := cr.call(true, c.Doc, "class=adversarial")
 				bad = cr.judge(c, c.Doc, yo, dyy, "free", ft)
+				if !bad && g.YAMLCanonical(c.Doc) {
+					bad = cr.same(fo, yo, dyy, "C05:json-yaml-diverge", "adversarial document as YAML")
+				}
 			}
 			ft.Undo()
 			if bad {
@@ -416,7 +419,7 @@ func c05cWhere(where string) string {
 // letter's case flipped. K ranges over every initial letter A..Z / a..z, single letters, every letter
 // as the initial of a later word (maxZone <- max_zone), digits inside names and acronyms.
 func TestVerifC05ConfKeys(t *testing.T) {
-	m := vk.New(t, "C05", "fixed family: struct key K (tag key or bare field name) x document key spelled K / snake_case(K) / K with flipped initial; K = every letter A..Z and a..z as initial (Zone, zone), single letters, every letter as initial of a later word (maxZone <- max_zone, zkZhosts), digits inside names (http2Port, a0Z9z), acronyms (HTTPPort, ID: same + flipped initial only - their snake_case is ambiguous); required and optional fields; at top level, nested, in slices/maps of structs, embedded and optional-embedded structs; JSON and YAML")
+	m := vk.New(t, "C05", "fixed family: struct key K (tag key or bare field name) x document key spelled K / snake_case(K) / K with flipped initial; K = every letter A..Z and a..z as initial (Zone, zone), single letters, every letter as initial of a later word (maxZone <- max_zone, zkZhosts), digits inside names (http2Port, a0Z9z), acronyms (HTTPPort, ID: same + flipped initial only - their snake_case is ambiguous); required and optional fields; at top level, nested, in slices/maps of structs, embedded and optional-embedded structs, and under every container nesting of length 1..3 over {struct field, slice, map} ([][]T, map[string][]T, []map[string]T ...) with required/optional/default leaves; JSON and YAML")
 	defer m.Done()
 	type keyCase struct {
 		k       string
@@ -540,6 +543,69 @@ func TestVerifC05ConfKeys(t *testing.T) {
 					}
 					m.Count("key-table."+v.mode, 1)
 					m.Count("key-table.place."+pl.name, 1)
+				}
+			}
+		}
+	}
+	// container nesting, systematically: the struct that carries the key sits under every sequence
+	// of length 1..3 over {struct field, slice, map} ([][]T, map[string][]T, []map[string]T, ...)
+	var seqs []string
+	for _, a := range "SLM" {
+		seqs = append(seqs, string(a))
+		for _, b := range "SLM" {
+			seqs = append(seqs, string(a)+string(b))
+			for _, c := range "SLM" {
+				seqs = append(seqs, string(a)+string(b)+string(c))
+			}
+		}
+	}
+	nestKeys := []string{"Zone", "userName", "maxZone", "A", "z", "dbUrl2"}
+	leafOpts := []struct {
+		name string
+		o    g.Opts
+	}{{"required", g.Opts{}}, {"optional", g.Opts{Optional: true}}, {"default", g.Opts{HasDefault: true, Default: "3"}}}
+	for _, seq := range seqs {
+		for _, k := range nestKeys {
+			for _, lo := range leafOpts {
+				for _, v := range [][2]string{{"same", k}, {"flip", flip(k)}, {"snake", snake(k)}} {
+					for _, yaml := range []bool{false, true} {
+						idx++
+						if !m.Only(idx) {
+							continue
+						}
+						t := leaf(k, lo.o)
+						var doc any = map[string]any{v[1]: val()}
+						for i := len(seq) - 1; i >= 0; i-- {
+							switch seq[i] {
+							case 'S':
+								t = g.StructOf(g.F(fmt.Sprintf("W%d", i), "inner", t, g.Opts{}))
+								doc = map[string]any{"inner": doc}
+							case 'L':
+								t = g.SliceOf(t)
+								doc = []any{doc, g.Clone(doc)}
+							case 'M':
+								t = g.MapOf(t)
+								doc = map[string]any{"k1": doc, "k2": g.Clone(doc)}
+							}
+						}
+						root := g.StructOf(g.F("R", "root", t, g.Opts{}))
+						rdoc := map[string]any{"root": doc}
+						sh := &g.Shape{Root: root, TagKey: "json"}
+						cr := &c05cRun{m: m, idx: idx >> 9, shape: sh}
+						out, d := cr.call(yaml, rdoc, fmt.Sprintf("class=valid;struct-key=%s;doc-key=%s;nesting=%s;leaf=%s", k, v[1], seq, lo.name))
+						m.Case(d, true)
+						switch {
+						case out.pv != nil:
+							m.Violate(c05cPanicSig(out), d, "panic: %v", out.pv)
+						case out.err != nil:
+							m.Violate("C05:conf-key-variant:"+v[0]+":errorness:nested-containers", d, "struct key %q, document key %q under nesting %s (%s leaf): %v", k, v[1], seq, lo.name, out.err)
+						default:
+							if fd := g.Audit(sh, out.res, rdoc, g.AuditOpt{Canon: c05cCanon}); fd != nil {
+								m.Violate("C05:conf-key-variant:"+v[0]+":value:nested-containers", d, "struct key %q, document key %q under nesting %s (%s leaf): %s", k, v[1], seq, lo.name, fd.Detail)
+							}
+						}
+						m.Count("key-table.nesting."+seq, 1)
+					}
 				}
 			}
 		}
